@@ -203,6 +203,11 @@ def dumps(x):
     return json.dumps(x, sort_keys=True, default=str)
 
 
+def _abuse(a):
+    if a.size:
+        a[:] = 1 - a
+
+
 def deep_mutate(o, tag=MUT, seen=None):
     networkx, numpy, CausalGraph, Node, Edge = _types()
     if seen is None:
@@ -593,6 +598,35 @@ class Lane(LaneBase):
                                 c['edges'] = [[a, b, '--', m] for a, b, t, m in c['edges']]
                             c.update(api='sk:' + skapi, warm=warm)
                             yield c
+        # constructors: the object a graph is built from and the graph never alias each other
+        for _ in range(2 * k):
+            for cls in ('plain', 'ts'):
+                for api in self.CTORS:
+                    if (api == 'ctor:from_adjacency_matrices' and cls != 'ts') or (api == 'ctor:from_causal_graph' and cls != 'plain'):
+                        continue
+                    fam = 'nx' if api in ('ctor:from_networkx',) else ('any' if api in ('ctor:from_dict', 'ctor:from_causal_graph', 'ctor:from_skeleton') else 'adj')
+                    names, edges = (gen_ts if cls == 'ts' else gen_plain)(rng, fam)
+                    if api == 'ctor:from_skeleton':
+                        edges = [[a, b, '--'] for a, b, t in edges]
+                    yield {'cls': cls, 'api': api, 'order': rng.choice(['first', 'later']), 'mutate': True,
+                           'gmeta': rng.choice([None, 1, 2]), 'nodes': [[n, rng.choice([None, 0, 1])] for n in names],
+                           'edges': [e + [rng.choice([None, 0, 1])] for e in edges]}
+        # graphs with no node at all (never filled, nested graph-level metadata): every export / copy / conversion of them
+        for cls in ('plain', 'ts'):
+            for api, (_, _, classes, _) in API.items():
+                if classes in ('both', cls) and api not in NEEDS_NODE and api != 'edge_to_dict':
+                    for order in ('first', 'later'):
+                        c = {'cls': cls, 'api': api, 'order': order, 'mutate': True, 'gmeta': 2, 'nodes': [], 'edges': []}
+                        if api == 'get_nodes_at_lag':
+                            c['arg'] = 0
+                        elif api == 'get_nodes_for_variable_name':
+                            c['arg'] = 'X'
+                        elif api == 'extend_graph':
+                            c['arg'] = [1, 1, True]
+                        yield c
+            for api in self.CTORS:
+                if api in ('ctor:from_dict', 'ctor:from_causal_graph') and not (api == 'ctor:from_causal_graph' and cls != 'plain'):
+                    yield {'cls': cls, 'api': api, 'order': 'first', 'mutate': True, 'gmeta': 2, 'nodes': [], 'edges': []}
         for family in (False, True):
             for _ in range(k):
                 for cls in ('plain', 'ts'):
@@ -699,6 +733,118 @@ class Lane(LaneBase):
                 'key': dumps([case['cls'], case['api'], case.get('warm'), case['nodes'], case['edges']]), 'tags': tags}
 
     # --------------------------------------------------------------------------------------------------------
+    CTORS = ('ctor:from_adjacency_matrix', 'ctor:from_adjacency_matrix_int', 'ctor:from_networkx', 'ctor:from_dict',
+             'ctor:from_skeleton', 'ctor:from_adjacency_matrices', 'ctor:from_causal_graph')
+
+    @staticmethod
+    def _readout(h):
+        """what the built graph is and answers (also through its memoising readers)"""
+        out = {'snap': snapshot(h)}
+        for name, f in (('numpy', lambda: canon(h.to_numpy())), ('adj', lambda: canon(h.adjacency_matrix)),
+                        ('nx', lambda: canon(h.to_networkx())), ('dict', lambda: canon(h.to_dict())),
+                        ('by_lag', lambda: canon(h.to_numpy_by_lag()) if hasattr(h, 'to_numpy_by_lag') else None)):
+            try:
+                out[name] = f()
+            except Exception as e:  # noqa: BLE001
+                out[name] = '!' + type(e).__name__
+        return dumps(out)
+
+    def run_ctor(self, case):
+        """constructors take snapshots too: the object a graph was built FROM (matrix, networkx graph, dictionary, skeleton,
+        plain graph) and the graph never alias each other.  Oracle only (no model line)."""
+        import numpy
+        from cai_causal_graph import CausalGraph
+        api = case['api'][5:]
+        tags = [f"{case['cls']}:ctor:{api}"]
+        triv = {'lines': [], 'impl': [], 'oracle': [], 'nontrivial': False, 'key': '', 'tags': tags}
+        try:
+            g = build(case)
+            C = type(g)
+            if api == 'from_adjacency_matrix':
+                src = copy.deepcopy(g.to_numpy())
+                mk = lambda s: C.from_adjacency_matrix(s[0], s[1])
+            elif api == 'from_adjacency_matrix_int':
+                a, names = g.to_numpy()
+                src = (numpy.array(a).astype(int), list(names))
+                mk = lambda s: C.from_adjacency_matrix(s[0], s[1])
+            elif api == 'from_networkx':
+                src = copy.deepcopy(g.to_networkx())
+                mk = lambda s: C.from_networkx(s)
+            elif api == 'from_dict':
+                src = copy.deepcopy(g.to_dict())
+                mk = lambda s: C.from_dict(s)
+            elif api == 'from_skeleton':
+                src = g.copy().skeleton
+                mk = lambda s: C.from_skeleton(s)
+            elif api == 'from_adjacency_matrices':
+                src = copy.deepcopy(g.to_numpy_by_lag())
+                mk = lambda s: C.from_adjacency_matrices(s[0], s[1])
+            else:
+                src = CausalGraph.from_dict(copy.deepcopy(g.to_dict()), validate=False)
+                mk = lambda s: _ts().from_causal_graph(s)
+            h = mk(src)
+        except Exception as ex:  # noqa: BLE001 -- the route does not apply to this graph
+            triv['tags'] = tags + ['raises:' + type(ex).__name__]
+            return triv
+        oracle = []
+        warm = case.get('order') == 'later'
+        if warm:
+            self._readout(h)
+        before = self._readout(h)
+        src_before = dumps(canon(src._graph if api == 'from_skeleton' else src))
+        # 1. change what the graph was built from
+        try:
+            if api == 'from_skeleton':
+                self.mutate_graph(src._graph)
+            elif api == 'from_causal_graph':
+                self.mutate_graph(src)
+            else:
+                deep_mutate(src)
+                for x in (src if isinstance(src, tuple) else [src]):
+                    if isinstance(x, numpy.ndarray) and x.size:
+                        x[:] = 1 - x
+                    elif isinstance(x, dict):
+                        for v in x.values():
+                            if isinstance(v, numpy.ndarray) and v.size:
+                                v[:] = 1 - v
+        except Exception:  # noqa: BLE001
+            pass
+        if self._readout(h) != before:
+            oracle.append(f"ctor-source-reaches-graph | {case['cls']} {api} ({'warm' if warm else 'cold'} readers): changing "
+                          f'the object the graph was built from changed the graph or one of its exports')
+        # 2. change the built graph: a second source of the same shape must not notice
+        try:
+            g2 = build(case)
+            if api in ('from_skeleton',):
+                src2 = g2.skeleton
+                watch = lambda: dumps(snapshot(g2))
+            elif api == 'from_causal_graph':
+                src2 = CausalGraph.from_dict(copy.deepcopy(g2.to_dict()), validate=False)
+                watch = lambda: dumps(snapshot(src2))
+            else:
+                src2 = {'from_adjacency_matrix': lambda: copy.deepcopy(g2.to_numpy()),
+                        'from_adjacency_matrix_int': lambda: (numpy.array(g2.to_numpy()[0]).astype(int), list(g2.to_numpy()[1])),
+                        'from_networkx': lambda: copy.deepcopy(g2.to_networkx()),
+                        'from_dict': lambda: copy.deepcopy(g2.to_dict()),
+                        'from_adjacency_matrices': lambda: copy.deepcopy(g2.to_numpy_by_lag())}[api]()
+                watch = lambda: dumps(canon(src2))
+            h2 = mk(src2)
+            w0 = watch()
+            self.mutate_graph(h2)
+            for f in (lambda: _abuse(h2.to_numpy()[0]), lambda: _abuse(h2.adjacency_matrix)):
+                try:
+                    f()
+                except Exception:  # noqa: BLE001
+                    pass
+            if watch() != w0:
+                oracle.append(f"ctor-graph-reaches-source | {case['cls']} {api}: changing the built graph changed the object "
+                              f'it was built from')
+        except Exception:  # noqa: BLE001
+            pass
+        del src_before
+        return {'lines': [], 'impl': [], 'oracle': oracle, 'nontrivial': bool(case['edges']) or bool(case.get('gmeta')),
+                'key': dumps([case['cls'], api, case.get('order'), case['nodes'], case['edges'], case.get('gmeta')]), 'tags': tags}
+
     def run_mut(self, case):
         """mutators that take or move a metadata container: after the call, (int) do two metadata cells of the graph
         share, (arg) does the graph share with the caller's dictionary, (old) does it share with the metadata of an
@@ -743,6 +889,8 @@ class Lane(LaneBase):
             return self.run_mut(case)
         if api.startswith('sk:'):
             return self.run_skeleton(case)
+        if api.startswith('ctor:'):
+            return self.run_ctor(case)
         tags = [f"{case['cls']}:{api}", 'order:' + case['order'], 'mutate:' + str(int(case['mutate']))]
         triv = {'lines': [], 'impl': [], 'oracle': [], 'nontrivial': False, 'key': '', 'tags': tags}
         try:
